@@ -85,7 +85,7 @@ struct PCurve2 : TPBase
         case 5: v = 0; break;
         default: v = 100 * u; break;
         }
-        x[size_t(i)](c) = v;
+        x[size_t(i)](c) = snap(v);
       }
     return Args{x};
   }
